@@ -55,6 +55,8 @@ def render_node(n: Node, top: bool = False) -> str:
         lo, hi = n[2], n[3]
         if hi is None:
             b = f"{{{lo},}}"
+        elif lo == 0 and len(n) > 4 and n[4] == "omit_lo":
+            b = f"{{,{hi}}}"
         elif lo == hi:
             b = f"{{{lo}}}"
         else:
